@@ -40,6 +40,21 @@ CHECKS = {
         "thread identity reuse modelled through the get_ident seam. The model is the real object (no separate model to conform).",
         "DESIGN.md section 5 C15",
     ),
+    "C03": (
+        "vmc/c03.py (E2 explicit-state BFS over the real fold + pipeline conformance)",
+        "model_checking",
+        "explicit-state BFS over statement histories, each transition executed by the real SQLLineageHolder.of, reference model in lock-step; "
+        "every history up to a depth replayed as real SQL through LineageRunner",
+        "(a) breadth-first search over histories of abstract statements (every read-set x at-most-one write over 3 tables, DROP, "
+        "RENAME: 40 letters; 15 letters on 2 tables, searched to a fixpoint); every transition folds real analyzer holders with the "
+        "real SQLLineageHolder.of and compares roles and table edges with a reference state written from the property text; states "
+        "deduplicated by (table-level projection of the folded graph, reference state). (b) every history up to depth 2-4 is rendered "
+        "to a real script and run through LineageRunner (ansi, mysql RENAME TABLE, tsql, non-validating in thorough); summary, "
+        "exported table edges and statement count must equal the reference's.",
+        "Trusted: the reference fold (about 60 lines, from the property text; unconstrained where the text is silent: RENAME of a "
+        "marked table or onto an existing table); the canonical projection's soundness argument (DESIGN.md C03).",
+        "DESIGN.md section 5 C03",
+    ),
 }
 
 NOT_YET = "check not built yet in this revision (planned in DESIGN.md section 5/11); not claimed"
